@@ -167,6 +167,13 @@ def gen_spec(rng: random.Random, circular=None, length=None, max_genes: int = 14
             if inner[-1][1] < parts[0][1]:
                 genes.append({"parts": inner, "strand": rng.choice([1, -1]), "codon_start": 1, "stop": False,
                               "bridging": False})
+    # a twin: the same span on the other strand (the two sort equally)
+    singles = [g for g in genes if len(g["parts"]) == 1 and not g["bridging"]]
+    if singles and rng.random() < 0.2:
+        base = rng.choice(singles)
+        genes.insert(genes.index(base) + rng.choice([0, 1]),
+                     {"parts": [list(p) for p in base["parts"]], "strand": -base["strand"], "codon_start": 1,
+                      "stop": False, "bridging": False})
     seen = set()
     unique = []
     for gene in genes:
@@ -730,6 +737,8 @@ def facts(record) -> dict:
         "subregions": len(record.get_subregions()),
         "sideloaded_subregions": sum(1 for s in record.get_subregions() if isinstance(s, SideloadedSubRegion)),
         "regions": len(record.get_regions()),
+        "same_span_genes_on_both_strands": len({(int(c.location.start), int(c.location.end)) for c in record.get_cds_features()})
+        < len(record.get_cds_features()),
         "candidates_with_structure": sum(1 for c in record.get_candidate_clusters() if c.smiles_structure),
         "candidate_without_structure_after_one_with": _structure_then_none(record),
         "origin_region_with_split_numbering": _split_numbering(record),
